@@ -203,6 +203,10 @@ __ymcw_get_yday(dt_ymcw_t that)
 	dt_dow_t w = (dt_dow_t)(that.w ?: DT_THURSDAY);
 	unsigned int diff = j01w <= w ? w - j01w : w + 7 - j01w;
 
+	if (UNLIKELY(!that.m || that.m > GREG_MONTHS_P_YEAR || diff > 6U)) {
+		/* not a date, the tables below are indexed by month */
+		return 0U;
+	}
 	if (UNLIKELY(__leapp(that.y))) {
 		switch (diff) {
 		case 3:
